@@ -22,7 +22,7 @@ def nabs(x):
 
 MANIFEST = dict(
     technique='explicit-state enumeration of the cost-matrix input tree x blank index x all label sequences; real force_align/align_text vs brute force over all C^T symbol paths',
-    text='Bounded exhaustive: every cost matrix with T <= 4 (quick) / 5 (thorough) rows over an 8-row alphabet (ties, +inf, fractional) for C=3 and T <= 3/4 over 6 rows for C=4, every blank index, every label sequence of length 1..T+1 (repeats included) and sequences containing the blank; the same for float32 and integer cost matrices up to T = 3 / 4. Validity, optimality, the exact feasibility boundary and the most-confident-frame rule are checked against enumeration of all alignments. Added sub-sweeps: float32 / int64 cost matrices, costs shifted by +1000 / +200 (float32) / scaled by 1e-17, a 300-symbol output layer with small-integer label arrays, and lines of 260-1030 frames against a dynamic-programming minimum (validated against brute force in setup). Cost matrices whose entries are all negative.',
+    text='Bounded exhaustive: every cost matrix with T <= 4 (quick) / 5 (thorough) rows over an 8-row alphabet (ties, +inf, fractional) for C=3 and T <= 3/4 over 6 rows for C=4, every blank index, every label sequence of length 1..T+1 (repeats included) and sequences containing the blank; the same for float32 and integer cost matrices up to T = 3 / 4. Validity, optimality, the exact feasibility boundary and the most-confident-frame rule are checked against enumeration of all alignments. Added sub-sweeps: float32 / int64 cost matrices, costs shifted by +1000 / +200 (float32) / scaled by 1e-17, a 300-symbol output layer with small-integer label arrays, and lines of 260-1030 frames against a dynamic-programming minimum (validated against brute force in setup). Cost matrices whose entries are all negative. Wave 10: impossible symbols (+inf) next to finite costs of hundreds; every single failing array allocation of force_align / align_text on all two-row matrices.',
     note='Costs outside the alphabet and T above the bound are not explored; ties accept any optimal alignment; all-infinite alignments may either fail or be returned.',
     ref='3/C05')
 INF = float('inf')
